@@ -8,6 +8,7 @@ import LW.Model.Rewrite
 import LW.Model.CircuitSpec
 import LW.Model.Optic
 import LW.Model.Heap
+import LW.Model.Abs
 
 open Lean
 
@@ -28,6 +29,9 @@ def asConv (j : Json) : R Conv := do
 
 def asGQPair (j : Json) : R (GQ × GQ) := asPair asGQ asGQ j
 
+def closedJ (c : Closed GQ) : Json :=
+  Json.mkObj [("q", natJ c.q), ("hn", listJ natJ c.hn), ("l", natJ c.l), ("W", matJ c.W)]
+
 def observe (c : Circ GQ) : Json :=
   let U := c.Ufull GQ.I
   Json.mkObj [
@@ -39,7 +43,8 @@ def observe (c : Circ GQ) : Json :=
     ("loss_modes", natJ (lossCount c.spec)),
     ("spec_len", natJ c.spec.length),
     ("U_full", matJ U),
-    ("U_spec", matJ (c.Uspec GQ.I))]
+    ("U_spec", matJ (c.Uspec GQ.I)),
+    ("abs_closed", closedJ (c.toOptic GQ.I).closed)]
 
 /-- parse one op of the protocol into the model's `CircOp` -/
 def parseCircOp (op : Json) : R (CircOp GQ) := do
@@ -123,9 +128,6 @@ def OPool.get (p : OPool) (k : String) : Option (Optic GQ) :=
 
 def OPool.set (p : OPool) (k : String) (c : Option (Optic GQ)) : OPool :=
   if p.any (·.1 == k) then p.map fun x => if x.1 == k then (k, c) else x else p ++ [(k, c)]
-
-def closedJ (c : Closed GQ) : Json :=
-  Json.mkObj [("q", natJ c.q), ("hn", listJ natJ c.hn), ("l", natJ c.l), ("W", matJ c.W)]
 
 /-- the same op on the specification level (`Optic`); `none` = not expressible (e.g. after
 `unpack_groups` on a circuit with ancillas) -/
